@@ -6,6 +6,7 @@
 #include <limits>
 #include <memory>
 #include "pvh.h"
+#include "checked_device.h"
 using namespace primitiv;
 using namespace pvh;
 struct Argerr {};
@@ -144,7 +145,12 @@ static std::string eval(const std::vector<std::string> &t) {
 int main() {
   std::unique_ptr<Device> d;
   const char *be = std::getenv("PV_BACKEND");
-  if (be && std::string(be) == "eigen") d.reset(new devices::Eigen()); else d.reset(new devices::Naive());
+  const std::string b = be ? be : "naive";
+  bool checked = false;
+  if (b == "eigen") d.reset(new devices::Eigen());
+  else if (b == "checked") { d.reset(new pvh::CheckedNaive()); checked = true; }
+  else if (b == "checked-eigen") { d.reset(new pvh::CheckedEigen()); checked = true; }
+  else d.reset(new devices::Naive());
   dev = d.get();
   Device::set_default(*dev);
   std::string line;
@@ -155,6 +161,14 @@ int main() {
     catch (Argerr &) { o = "argerr"; }
     catch (Error &) { o = "err"; }
     catch (std::exception &e) { o = std::string("other-exception ") + e.what(); }
+    if (checked) {
+      // every temporary of the case is gone: no block may be alive, no guard damaged; an
+      // output that still contains the poison pattern was not fully written by its kernel
+      pvh::MemStats &m = pvh::mem();
+      if (m.live != 0) o += " LEAK live=" + std::to_string(m.live);
+      if (m.guard_damage != 0) { o += " GUARD-DAMAGE"; m.guard_damage = 0; }
+      if (o.find("nan") != std::string::npos) o += " POISON-IN-OUTPUT";
+    }
     std::cout << o << "\n";
   }
   return 0;
